@@ -445,6 +445,10 @@ def run(ck, binary, run_impl, replay):
             if len(b) > 4096:
                 continue
             cases.append(mk_parse(b, o, tree=tree, origin="tree"))
+            if i % 3 == 0:
+                # the same bytes without any hint: every length-delimited field is raw bytes (also the
+                # reference for the script-level "no options after a call with options" sequences)
+                cases.append(mk_parse(b, None, origin="noopts"))
             for _ in range(2 if quick else 4):
                 mb, kind = mutate(rng, b)
                 if rng.random() < 0.3:
@@ -576,7 +580,18 @@ def run(ck, binary, run_impl, replay):
         sample = [i for i, c in enumerate(cases) if c["_origin"].startswith(("tree", "mut", "cfg", "hostile"))]
         rng.shuffle(sample)
         sample = sample[:(400 if quick else 6000)]
-        pcases = [dict(strip(cases[i]), k="wire.parse.script") for i in sample]
+        # history independence: a call WITH hints immediately followed by a call on the same bytes with NO
+        # options argument (or an empty array); the second must equal ParseRawFields without hints
+        pairs = [i for i, c in enumerate(cases[:-1]) if c["_origin"] == "tree" and cases[i + 1]["_origin"] == "noopts"]
+        rng.shuffle(pairs)
+        for n, i in enumerate(pairs[:(150 if quick else 2000)]):
+            sample += [i, i + 1]
+        pcases = []
+        for n, i in enumerate(sample):
+            pc = dict(strip(cases[i]), k="wire.parse.script")
+            if cases[i]["_origin"] == "noopts" and n % 4 == 1:
+                pc["extra"] = {"empty_opts": "1"}
+            pcases.append(pc)
         scases = []
         for _ in range(150 if quick else 3000):
             tr = gen_script_fields(rng, rng.randint(0, 4), 4)
